@@ -4,7 +4,9 @@ package main
 
 import (
 	"fmt"
+	"go/constant"
 	"go/token"
+	"strings"
 
 	"golang.org/x/tools/go/ssa"
 )
@@ -244,6 +246,9 @@ func checkC02(c *Ctx) {
 
 	// remap after a leave: indexes recorded for the remaining players are positions in the NEW list
 	checkLeaveRemap(c)
+	checkInPlaceFilter(c, "R4")
+	// who is in the hand list at all: the dealt-in flags
+	checkDealtInCopy(c, "R7")
 
 	// seat scans of the engine: counters past one circle only modulo the seat count
 	checkWrapCounters(c, "R4", func(f *ssa.Function) bool { return inPkg(p, f, "") }, 4)
@@ -540,6 +545,165 @@ func checkLeaveRemap(c *Ctx) {
 			}
 		}
 		c.Check(ok, "R4", "leave-remap:hand-index-source", p.InstrPos(ci), "new hand index = new position of the same player id", "after a leave the hand index list is rebuilt from "+es.String()+", not from the id → new position map")
+		// … looked up by the id of the player the *old* hand entry denotes, for every old entry in order
+		if ok {
+			lk := es.Args[0].Strip().V.(*ssa.Lookup)
+			k := p.Sym(lk.Index).Strip()
+			why := ""
+			// id taken through an old-position → id map of this function
+			if k.Kind == "lookup" {
+				if l2, isL := k.V.(*ssa.Lookup); isL && typeShort(l2.X.Type()) == "map[int]string" {
+					nm := 0
+					for _, b := range leave.Blocks {
+						for _, in := range b.Instrs {
+							mu, isMU := in.(*ssa.MapUpdate)
+							if !isMU || mu.Map != l2.X {
+								continue
+							}
+							nm++
+							mk, mv := p.Sym(mu.Key).Strip(), p.Sym(mu.Value).Strip()
+							if !(mv.IsField("TablePlayerState", "PlayerID") && mv.Args[0].Strip().Kind == "index" && mv.Args[0].Strip().Args[1].Strip().String() == mk.String() &&
+								mv.Args[0].Strip().Args[0].Strip().IsField("TableState", "PlayerStates")) {
+								why = "the old-position → id map records " + mv.String() + " under " + mk.String()
+							}
+						}
+					}
+					if nm == 0 {
+						why = "the old-position → id map is never filled"
+					}
+					k = p.Sym(l2.Index).Strip()
+				}
+			} else if k.IsField("TablePlayerState", "PlayerID") && k.Args[0].Strip().Kind == "index" && k.Args[0].Strip().Args[0].Strip().IsField("TableState", "PlayerStates") {
+				k = k.Args[0].Strip().Args[1].Strip()
+			} else {
+				why = "the id looked up is " + k.String()
+			}
+			if why == "" {
+				if !(k.Kind == "index" && k.Args[0].Strip().IsField("TableState", "GamePlayerIndexes") &&
+					fullRange(k.Args[1], func(x *Sym) bool { return x.String() == k.Args[0].Strip().String() })) {
+					why = "the old hand entries are enumerated as " + k.String() + ", not as every element of the current hand index list in order"
+				}
+			}
+			c.Check(why == "", "R4", "leave-remap:hand-index-order", p.InstrPos(ci), "for each old hand entry in order: new position of that entry's player", "after a leave the hand index list no longer denotes the same players in the same order: "+why)
+		}
 	}
 	c.Min("R4", "appends to the remapped hand index list", na, 1)
+	// the remap is performed whenever a hand exists (opened, playing or settled); the
+	// status it tests is the live table's
+	for _, ci := range Calls(leave) {
+		cs := p.CallSym(ci)
+		if cs.Kind != "builtin" || cs.Name != "append" || !isIntSlice(ci.Common().Args[0]) || appendedElem(p, ci) == nil {
+			continue
+		}
+		set := statusesAdmitting(p, ci, leave)
+		missing := []string{}
+		for _, w := range []string{"table_game_opened", "table_game_playing", "table_game_settled"} {
+			if !set[w] {
+				missing = append(missing, w)
+			}
+		}
+		c.Check(len(missing) == 0, "R4", "leave-remap:while-a-hand-exists", p.InstrPos(ci), "remap under status ∈ {opened, playing, settled}", "a leave does not re-index the hand's player list in status "+strings.Join(missing, ", ")+": the hand's entries then denote other players")
+	}
+	for _, site := range p.CG().AllCallSitesOf(leave) {
+		if len(site.Common().Args) < 2 {
+			continue
+		}
+		a := p.Sym(site.Common().Args[1]).Strip()
+		c.Check(a.IsField("TableState", "Status"), "R4", "leave-remap:status-argument:"+FuncName(site.Parent()), p.InstrPos(site), "status argument = the table's status", "the leave computation is told status "+a.String())
+	}
+}
+
+// statusesAdmitting: the status constants c such that instruction in is (by dominance)
+// executed only under "status is one of …" and c is among them. Two idioms: membership
+// in a slice literal (funk.Contains(list, status)) and a chain/switch of status == c tests.
+func statusesAdmitting(p *Prog, in ssa.Instruction, f *ssa.Function) map[string]bool {
+	out := map[string]bool{}
+	isStatus := func(x *Sym) bool {
+		x = x.Strip()
+		return (len(f.Params) >= 2 && symIsParam(x, f.Params[1])) || x.IsField("TableState", "Status")
+	}
+	for _, g := range p.Guards(in) {
+		s := g.Cond.Strip()
+		if g.Val && s.IsCall("funk.Contains") && len(s.Args) == 2 && isStatus(s.Args[1]) {
+			for _, k := range sliceLiteralStrings(s.Call.Common().Args[0]) {
+				out[k] = true
+			}
+		}
+		if cm := g.AsCmp(); cm != nil && g.Val && cm.Op == token.EQL && isStatus(cm.L) {
+			if k, ok := cm.R.ConstString(); ok {
+				out[k] = true
+			}
+		}
+	}
+	// a block all of whose predecessors are true edges of status == c
+	for b := in.Block(); b != nil; b = b.Idom() {
+		if len(b.Preds) < 2 {
+			continue
+		}
+		var ks []string
+		all := true
+		for _, pr := range b.Preds {
+			iff, isIf := pr.Instrs[len(pr.Instrs)-1].(*ssa.If)
+			if !isIf || pr.Succs[0] != b {
+				all = false
+				break
+			}
+			cm := (Guard{Cond: p.Sym(iff.Cond), V: iff.Cond, Val: true, If: iff}).AsCmp()
+			if cm == nil || cm.Op != token.EQL || !isStatus(cm.L) {
+				all = false
+				break
+			}
+			k, ok := cm.R.ConstString()
+			if !ok {
+				all = false
+				break
+			}
+			ks = append(ks, k)
+		}
+		if all {
+			for _, k := range ks {
+				out[k] = true
+			}
+		}
+	}
+	return out
+}
+
+// sliceLiteralStrings: the string constants of a slice composite literal (or of the
+// interface wrapping it).
+func sliceLiteralStrings(v ssa.Value) []string {
+	for {
+		switch x := v.(type) {
+		case *ssa.MakeInterface:
+			v = x.X
+			continue
+		case *ssa.ChangeType:
+			v = x.X
+			continue
+		}
+		break
+	}
+	sl, ok := v.(*ssa.Slice)
+	if !ok {
+		return nil
+	}
+	al, ok := sl.X.(*ssa.Alloc)
+	if !ok || al.Referrers() == nil {
+		return nil
+	}
+	var out []string
+	for _, r := range *al.Referrers() {
+		ia, isIA := r.(*ssa.IndexAddr)
+		if !isIA || ia.Referrers() == nil {
+			continue
+		}
+		for _, r2 := range *ia.Referrers() {
+			if st, isSt := r2.(*ssa.Store); isSt {
+				if k, isK := st.Val.(*ssa.Const); isK && k.Value != nil && k.Value.Kind() == constant.String {
+					out = append(out, constant.StringVal(k.Value))
+				}
+			}
+		}
+	}
+	return out
 }
